@@ -22,6 +22,7 @@ type Clause struct {
 
 type LoopContract struct {
 	Invariants []*Clause
+	Breaks     []*Clause // must hold at every edge that leaves the loop from inside its body (break / goto; not the head's own exit)
 	Steps      []*Clause // per-iteration postconditions: hold at every back edge (locals of the body in scope; loophead(e) = value at the head of the iteration)
 	Decreases  *Clause
 	Modifies   *Clause
@@ -191,6 +192,12 @@ func ParseContractFile(path string) ([]*Contract, []*Decl, error) {
 					return nil, nil, err
 				}
 				lc.Invariants = append(lc.Invariants, c)
+			case "break":
+				c, err := mk("break", text)
+				if err != nil {
+					return nil, nil, err
+				}
+				lc.Breaks = append(lc.Breaks, c)
 			case "step":
 				c, err := mk("step", text)
 				if err != nil {
